@@ -170,7 +170,7 @@ HomDegrees == {<<"add", 1>>, <<"sub", 1>>, <<"neg", 1>>, <<"mul_s", 1>>, <<"div_
                <<"truncate", 1>>, <<"from_diagonal", 1>>, <<"swap_rows", 1>>, <<"swap_cols", 1>>, <<"to_homogeneous", 1>>,
                <<"from_homogeneous", 0>>, <<"nlerp", 0>>}
 \* ... and when the scalar arguments are multiplied by k instead
-HomScalarDegrees == {<<"mul_s", 1>>, <<"div_s", -1>>, <<"s_mul", 1>>, <<"normalize_to", 1>>, <<"mul_ew", 1>>, <<"div_ew", -1>>}
+HomScalarDegrees == {<<"atan2", 0>>, <<"mul_s", 1>>, <<"div_s", -1>>, <<"s_mul", 1>>, <<"normalize_to", 1>>, <<"mul_ew", 1>>, <<"div_ew", -1>>}
 ProjRel(op, k, a, r) ==
   LET wide == k = "f32" IN
   CASE op \in {"slerp_proj", "nlerp_proj"} ->
@@ -255,7 +255,7 @@ ProjRel(op, k, a, r) ==
                           "q_invert", "q_normalize", "v3_normalize", "v2_normalize", "v4_normalize", "v3_magnitude", "v3_angle", "v2_angle",
                           "v3_project_on", "v3_cross", "v3_dot", "from_arc", "v3_is_zero", "v4_is_zero", "v2_is_zero", "v2_perp_dot",
                           "v3_cross_both", "v3_dot_both", "v2_perp_dot_both", "v3_angle_both", "v2_angle_both", "v3_project_on_both",
-                          "m4_inv_resid", "m3_inv_resid", "m2_inv_resid"}
+                          "m4_inv_resid", "m3_inv_resid", "m2_inv_resid", "m4_inv_graded", "m3_inv_graded", "m2_inv_graded"}
          /\ (Sc(a, 1) = "from_homogeneous" => a[3].c[4] # Zero)
          /\ r.c[1].c[1] <= 64 /\ r.c[2].c[1] = TRUE
     \* C08: concat(t1, t2)(p) = t1(t2(p)) for transforms with scales and displacements over many orders of magnitude
